@@ -167,7 +167,7 @@ pub fn child_main(json: &str) -> i32 {
             "drop" => { if k < evs.len() { evs.remove(k); } }
             _ => {}
         }
-        let mut s = StreamSc { entry: match sc.via.as_str() { "slice" => Entry::SliceWith, "str" if kind != "fail" => Entry::StrWith, _ => Entry::ParseWith }, target: Target::Value, opts: sc.opts, src: Src::Events(evs), faults: vec![], context: 0, hint: 0, reenter_at: 0 };
+        let mut s = StreamSc { entry: match sc.via.as_str() { "slice" => Entry::SliceWith, "str" if kind != "fail" => Entry::StrWith, _ => Entry::ParseWith }, target: Target::Value, opts: sc.opts, src: Src::Events(evs), faults: vec![], context: 0, hint: 0, reenter_at: 0, panic_at: 0 };
         if s.entry == Entry::SliceWith {
             let failed = matches!(&s.src, Src::Events(e) if matches!(e.last(), Some(Ev::Fail(_))));
             s.normalise();
@@ -178,18 +178,18 @@ pub fn child_main(json: &str) -> i32 {
         // `via` may name any of the 13 entry points
         let mut evs: Vec<Ev> = text.chars().map(|c| Ev::Item(c, c.len_utf8() as u32)).collect();
         if fails { evs.push(Ev::Fail(9)); }
-        let mut s = StreamSc { entry, target: Target::Value, opts: sc.opts, src: Src::Events(evs), faults: vec![], context: 0, hint: 0, reenter_at: 0 };
+        let mut s = StreamSc { entry, target: Target::Value, opts: sc.opts, src: Src::Events(evs), faults: vec![], context: 0, hint: 0, reenter_at: 0, panic_at: 0 };
         s.normalise();
         if fails && entry.bytes() { if let Src::Bytes(b) = &mut s.src { b.push(0xff); } }
         s
     } else { match sc.via.as_str() {
         // on the byte path a failing stream is an ill-formed byte
-        "slice" => { let mut b = text.into_bytes(); if fails { b.push(0xff); } StreamSc { entry: Entry::SliceWith, target: Target::Value, opts: sc.opts, src: Src::Bytes(b), faults: vec![], context: 0, hint: 0, reenter_at: 0 } }
-        "str" if !fails => StreamSc { entry: Entry::StrWith, target: Target::Value, opts: sc.opts, src: Src::Events(text.chars().map(|c| Ev::Item(c, c.len_utf8() as u32)).collect()), faults: vec![], context: 0, hint: 0, reenter_at: 0 },
+        "slice" => { let mut b = text.into_bytes(); if fails { b.push(0xff); } StreamSc { entry: Entry::SliceWith, target: Target::Value, opts: sc.opts, src: Src::Bytes(b), faults: vec![], context: 0, hint: 0, reenter_at: 0, panic_at: 0 } }
+        "str" if !fails => StreamSc { entry: Entry::StrWith, target: Target::Value, opts: sc.opts, src: Src::Events(text.chars().map(|c| Ev::Item(c, c.len_utf8() as u32)).collect()), faults: vec![], context: 0, hint: 0, reenter_at: 0, panic_at: 0 },
         _ => {
             let mut evs: Vec<Ev> = text.chars().map(|c| Ev::Item(c, c.len_utf8() as u32)).collect();
             if fails { evs.push(Ev::Fail(9)); }
-            StreamSc { entry: Entry::ParseWith, target: Target::Value, opts: sc.opts, src: Src::Events(evs), faults: vec![], context: 0, hint: 0, reenter_at: 0 }
+            StreamSc { entry: Entry::ParseWith, target: Target::Value, opts: sc.opts, src: Src::Events(evs), faults: vec![], context: 0, hint: 0, reenter_at: 0, panic_at: 0 }
         }
     } };
     std::panic::set_hook(Box::new(|_| {}));
